@@ -36,6 +36,18 @@ pub fn run(c: &Value) -> CaseResult {
         }
         if m.coefficients[k].value() != w { return Err(format!("(a*b)[{k}] = {}, expected {w}", m.coefficients[k].value())); }
     }
+    // the semiring laws on these operands (c defaults to b reversed): exact, the coefficients are residues
+    let (cpoly, _) = if c["c"].is_null() { let mut r: Vec<Value> = c["b"].as_array().cloned().unwrap_or_default(); r.reverse(); mk(&json!(r)) } else { mk(&c["c"]) };
+    let (zero, one) = (Polynomial::<F>::zero(), Polynomial::<F>::one());
+    let chk = |what: &str, ok: bool| -> CaseResult { if ok { Ok(()) } else { Err(format!("polynomial law fails: {what}")) } };
+    chk("a+b == b+a", a + b == b + a)?;
+    chk("(a+b)+c == a+(b+c)", (a + b) + cpoly == a + (b + cpoly))?;
+    chk("a+0 == a", a + zero == a && zero + a == a)?;
+    chk("a*b == b*a", a * b == b * a)?;
+    chk("(a*b)*c == a*(b*c)", (a * b) * cpoly == a * (b * cpoly))?;
+    chk("a*1 == a", a * one == a && one * a == a)?;
+    chk("a*0 == 0", a * zero == zero && zero * a == zero)?;
+    chk("a*(b+c) == a*b + a*c", a * (b + cpoly) == (a * b) + (a * cpoly))?;
     Ok(())
 }
 
